@@ -185,6 +185,8 @@ def render_machine(prog, base_name=None):
         if s.get("inherited"):
             continue
         kw = []
+        if s.get("name"):
+            kw.append(repr(s["name"]))
         if s.get("initial"):
             kw.append("initial=True")
         if s.get("final"):
